@@ -413,7 +413,7 @@ def _nested(draw):
 @st.composite
 def _trees(draw):
     kt = draw(st.sampled_from(["Int", "String", "Int", "String", "Float"]))
-    vt = draw(st.sampled_from(["Int", "String", "Float"]))
+    vt = draw(st.sampled_from(["Int", "String", "Float", "Blob20"]))      # a value wider than the key: key and value sizes differ
     pair = st.tuples(_elems(kt), _elems(vt))
     base = draw(st.one_of(st.lists(pair, max_size=5), st.lists(pair, max_size=5), st.lists(pair, min_size=6, max_size=20)))
     vals = []
@@ -632,6 +632,8 @@ def _parse_repr_scalar(tok):
         return bytes.fromhex(tok[1:])
     if tok[0] == "f":
         return gen.b2f(int(tok[1:], 16))
+    if tok.startswith("b20"):
+        return bytes.fromhex(tok[3:])
     raise HarnessBug("repr " + tok)
 
 
